@@ -14,15 +14,50 @@ import (
 	"sync"
 )
 
+type mutantResult struct {
+	name string
+	ok   bool
+	msg  string
+}
+
 func runSelftest(args []string) int {
 	fs := flag.NewFlagSet("selftest", flag.ExitOnError)
 	only := fs.String("only", "", "substring filter on patch names")
 	dirFlag := fs.String("dir", filepath.Join(verifDir, "selftest"), "corpus directory")
 	par := fs.Int("j", 4, "parallel mutants")
+	prop := fs.String("p", "", "only mutants of this property")
+	seeded := fs.Bool("seeded", false, "also run /verif/seeded")
 	fs.Parse(args)
-	patches, _ := filepath.Glob(filepath.Join(*dirFlag, "*.patch"))
-	more, _ := filepath.Glob(filepath.Join(*dirFlag, "*", "patch.diff"))
-	patches = append(patches, more...)
+	results := runMutants(*dirFlag, *only, *prop, *par, *seeded)
+	bad := 0
+	for _, r := range results {
+		if r.ok {
+			fmt.Printf("selftest ok    %s\n", r.name)
+		} else {
+			bad++
+			fmt.Printf("selftest FAIL  %s: %s\n", r.name, r.msg)
+		}
+	}
+	fmt.Printf("selftest: %d mutants, %d not caught\n", len(results), bad)
+	if bad > 0 {
+		return 1
+	}
+	return 0
+}
+
+// runMutants applies every must-fail patch (optionally only those of one property) to a scratch copy of
+// /repo outside /repo and /verif, and checks that the property check reports a violation there.
+func runMutants(dir, only, prop string, par int, withSeeded bool) []mutantResult {
+	patches, _ := filepath.Glob(filepath.Join(dir, "*.patch"))
+	if withSeeded {
+		sd, _ := filepath.Glob(filepath.Join(verifDir, "seeded", "*", "patch.diff"))
+		for _, p := range sd {
+			if _, err := os.Stat(filepath.Join(filepath.Dir(p), "patch_rebased.diff")); err == nil {
+				p = filepath.Join(filepath.Dir(p), "patch_rebased.diff")
+			}
+			patches = append(patches, p)
+		}
+	}
 	sort.Strings(patches)
 	scratchRoot := os.Getenv("VERIF_SCRATCH")
 	if scratchRoot == "" {
@@ -31,22 +66,34 @@ func runSelftest(args []string) int {
 	os.MkdirAll(scratchRoot, 0o755)
 	defer os.RemoveAll(scratchRoot)
 	self, _ := os.Executable()
-	type res struct {
-		name string
-		ok   bool
-		msg  string
-	}
+	type res = mutantResult
 	var mu sync.Mutex
 	var results []res
-	sem := make(chan struct{}, *par)
+	sem := make(chan struct{}, par)
 	var wg sync.WaitGroup
 	for i, p := range patches {
 		name := strings.TrimSuffix(filepath.Base(p), ".patch")
-		if filepath.Base(p) == "patch.diff" {
-			name = filepath.Base(filepath.Dir(p))
+		isSeeded := strings.HasSuffix(p, ".diff")
+		if isSeeded {
+			name = "seeded/" + filepath.Base(filepath.Dir(p))
 		}
-		if *only != "" && !strings.Contains(name, *only) {
+		if only != "" && !strings.Contains(name, only) {
 			continue
+		}
+		if prop != "" {
+			hdr, _ := os.ReadFile(p)
+			match := false
+			for _, l := range strings.Split(string(hdr), "\n") {
+				if strings.HasPrefix(l, "# property:") && strings.Contains(" "+l[len("# property:"):]+" ", " "+prop+" ") {
+					match = true
+				}
+			}
+			if isSeeded {
+				match = strings.HasPrefix(filepath.Base(filepath.Dir(p)), prop+"_")
+			}
+			if !match {
+				continue
+			}
 		}
 		wg.Add(1)
 		sem <- struct{}{}
@@ -58,9 +105,12 @@ func runSelftest(args []string) int {
 			data, _ := os.ReadFile(p)
 			var props, expects []string
 			metaSrc := string(data)
-			if filepath.Base(p) == "patch.diff" {
-				if m, err := os.ReadFile(filepath.Join(filepath.Dir(p), "expect.txt")); err == nil {
-					metaSrc = string(m)
+			if strings.HasSuffix(p, ".diff") {
+				// seeded change: the property is the id's prefix; any violation of it counts
+				id := filepath.Base(filepath.Dir(p))
+				metaSrc = "# property: " + strings.SplitN(id, "_", 2)[0] + "\n"
+				if m, err := os.ReadFile(filepath.Join(filepath.Dir(p), "check_props.txt")); err == nil {
+					metaSrc = "# property: " + strings.TrimSpace(string(m)) + "\n"
 				}
 			}
 			for _, l := range strings.Split(metaSrc, "\n") {
@@ -82,7 +132,7 @@ func runSelftest(args []string) int {
 				r.msg = "rsync: " + string(out)
 				return
 			}
-			cmd := exec.Command("patch", "-p1", "-s", "-i", p)
+			cmd := exec.Command("patch", "-p1", "-s", "--no-backup-if-mismatch", "-i", p)
 			cmd.Dir = scratch
 			if out, err := cmd.CombinedOutput(); err != nil {
 				r.msg = "patch does not apply: " + string(out)
@@ -124,18 +174,5 @@ func runSelftest(args []string) int {
 	}
 	wg.Wait()
 	sort.Slice(results, func(i, j int) bool { return results[i].name < results[j].name })
-	bad := 0
-	for _, r := range results {
-		if r.ok {
-			fmt.Printf("selftest ok    %s\n", r.name)
-		} else {
-			bad++
-			fmt.Printf("selftest FAIL  %s: %s\n", r.name, r.msg)
-		}
-	}
-	fmt.Printf("selftest: %d mutants, %d not caught\n", len(results), bad)
-	if bad > 0 {
-		return 1
-	}
-	return 0
+	return results
 }
